@@ -56,7 +56,7 @@ Fixpoint aspath2_fuel (fuel : nat) (b : list N) : option (list N) :=
     | S f =>
       match b with
       | t :: cnt :: r =>
-        if negb (seg_type_ok t) then None else
+        if negb (seg_type_ok t) || (cnt =? 0) then None else
         match widen2 (nat_of cnt) r with
         | None => None
         | Some (o, r') =>
@@ -70,7 +70,7 @@ Fixpoint aspath2_fuel (fuel : nat) (b : list N) : option (list N) :=
     end
   end.
 
-(* four-octet form: validate only; [nz] also rejects empty segments (AS4_PATH) *)
+(* four-octet form: validate only; [nz] also rejects empty segments (AS_PATH and AS4_PATH since fd00159) *)
 Fixpoint aspath4_ok_fuel (fuel : nat) (nz : bool) (b : list N) : bool :=
   match b with
   | [] => true
@@ -100,16 +100,17 @@ Definition attr_decode (code flags : N) (v : list N) (two_byte : bool) : option 
   | 4 | 5 | 9 => match v with [a; b; c; d] => mk (AVal (be32 a b c d)) | _ => None end
   | 2 => if two_byte then
            match aspath2_fuel (S (length v)) v with Some o => mk (ABin o) | None => None end
-         else if aspath4_ok false v then mk (ABin v) else None
+         else if aspath4_ok true v then mk (ABin v) else None
   | 6 => match v with [] => mk (ABin []) | _ => None end
   | 7 => match v with
          | [a; b; c; d; e; f] => mk (ABin (0 :: 0 :: a :: b :: c :: d :: e :: [f]))
          | [_; _; _; _; _; _; _; _] => mk (ABin v)
          | _ => None
          end
-  | 8 | 10 => if n mod 4 =? 0 then mk (ABin v) else None
-  | 16 => if n mod 8 =? 0 then mk (ABin v) else None
-  | 32 => if n mod 12 =? 0 then mk (ABin v) else None
+  | 3 => if n =? 4 then mk (ABin v) else None
+  | 8 | 10 => if negb (n =? 0) && (n mod 4 =? 0) then mk (ABin v) else None
+  | 16 => if negb (n =? 0) && (n mod 8 =? 0) then mk (ABin v) else None
+  | 32 => if negb (n =? 0) && (n mod 12 =? 0) then mk (ABin v) else None
   | 17 => if negb (n mod 2 =? 0) || (n <? 6) then None
           else if aspath4_ok true v then mk (ABin v) else None
   | 18 => if n =? 8 then mk (ABin v) else None
@@ -266,15 +267,16 @@ Definition accept (two_byte : bool) (s : ustate) (a : attr) : ustate :=
   else add_attr s a.
 
 (* while c.position() < attr_end { ... }.  [c] is the cursor, [arem] = attr_end -
-   position.  Returns the state and the final [arem] (non-zero after a `break`
-   that left the cursor short of attr_end). *)
+   position.  Returns the state and a remainder that is non-zero exactly when the
+   Rust has `truncated || c.position() != attr_end` after the loop (every `break`
+   sets `truncated`, so a break reports max(arem, 1)). *)
 Fixpoint attr_loop (fuel : nat) (two_byte : bool) (c : list N) (arem : N) (s : ustate)
   : res (ustate * N) :=
   if arem =? 0 then Ok (s, 0) else
   match fuel with
   | O => Panic FUEL
   | S f =>
-    if arem <? 2 then Ok (s, arem) else                              (* break *)
+    if arem <? 2 then Ok (s, N.max arem 1) else                      (* truncated = true; break *)
     '(flags, c) <- must 10 (get8 c) ;;
     '(code, c) <- must 11 (get8 c) ;;
     let arem := arem - 2 in
@@ -285,8 +287,8 @@ Fixpoint attr_loop (fuel : nat) (two_byte : bool) (c : list N) (arem : N) (s : u
         else
           if arem <? 1 then Ok (0, c, arem, true) else
           '(l, c) <- must 13 (get8 c) ;; Ok (l, c, arem - 1, false)) ;;
-    if brk then Ok (s, arem) else
-    if arem <? alen then Ok (s, arem) else                           (* break *)
+    if brk then Ok (s, N.max arem 1) else                            (* truncated = true; break *)
+    if arem <? alen then Ok (s, N.max arem 1) else                   (* truncated = true; break *)
     let skip := skipn (nat_of alen) c in
     let arem' := arem - alen in
     if seen s code then
@@ -296,8 +298,11 @@ Fixpoint attr_loop (fuel : nat) (two_byte : bool) (c : list N) (arem : N) (s : u
       let s := mark_seen s code in
       match canonical_flags code with
       | Some expected =>
-        if negb (N.land (N.lxor flags expected) 192 =? 0) then
-          attr_loop f two_byte skip arem' (add_err s code flags)
+        let flags_error := negb (N.land (N.lxor flags expected) 192 =? 0) in
+        let s := if flags_error then add_err s code flags else s in
+        (* a wrongly flagged MP_REACH_NLRI / MP_UNREACH_NLRI is still decoded *)
+        if flags_error && negb ((code =? 14) || (code =? 15)) then
+          attr_loop f two_byte skip arem' s
         else
           match (if Nat.ltb (length c) (nat_of alen) then None          (* reads past the end: Err(()) *)
                  else attr_decode code flags (firstn (nat_of alen) c) two_byte) with
